@@ -6,6 +6,7 @@
 import WD.Proofs.Pipeline.Theorems
 import WD.Proofs.Pipeline.FlatSpec
 import WD.Proofs.Pipeline.BurstFiles
+import WD.Proofs.Pipeline.BurstGrow
 /-
   `_partial`: the theorems quantify over all initial trees and all histories of valid operations, but in the
   regime "the stream drains after every operation" (`Sys.op`), plus bursts of FILE operations issued back to back and
@@ -150,5 +151,23 @@ theorem coverage_after_file_burst_partial (fs0 : FS) (hwf : fs0.WF) (full : Bool
   show Covered (((Sys.start fs0 true full).run pre).1.run burst).1
   rw [hfin]
   exact coverage_inv_partial fs0 hwf full (pre ++ burst) hv2 hns2
+
+
+/-- coverage of a NESTED BURST: after any drained history, `mkdir`s and file creations at any depth issued back to back
+    and read as one batch (directories created inside directories the burst itself created, before any of them had a
+    watch): afterwards every directory of the tree - those the kernel never reported included - is watched under its
+    real current path, and nothing else is -/
+theorem coverage_after_growth_burst_partial (fs0 : FS) (hwf : fs0.WF) (full : Bool) (pre burst : List Op)
+    (hv : allValid (Sys.start fs0 true full) pre = true) (hroot : Op.rmdir ["W"] ∉ pre)
+    (hb : allGrow ((Sys.start fs0 true full).run pre).1.fs burst = true) :
+    Covered (((Sys.start fs0 true full).run pre).1.burst burst).1 ∧
+    ∀ w ∈ (((Sys.start fs0 true full).run pre).1.burst burst).1.k.watches,
+      ∃ e ∈ (((Sys.start fs0 true full).run pre).1.burst burst).1.fs.ents, e.ino = w.2 ∧ inTreeDir e = true := by
+  obtain ⟨inv, hs, hc⟩ := after_history fs0 hwf full pre hv hroot
+  obtain ⟨_, _, _, h4, _⟩ := burst_grow _ burst inv hs hc hb
+  refine ⟨covered_of_inv h4 _ rfl rfl rfl, ?_⟩
+  intro w hw
+  obtain ⟨e, he, h1, h2, _⟩ := h4.good w hw
+  exact ⟨e, he, h1, h2⟩
 
 end WD.C02
